@@ -307,7 +307,11 @@ def alg_pred(prefixes):
             return False
         if any(p.startswith(x) for x in prefixes):
             return True
-        return p.rsplit("::", 1)[-1] in ALG_INLINE_LEAVES
+        if p.rsplit("::", 1)[-1] in ALG_INLINE_LEAVES:
+            return True
+        # shorthand methods of another (private) extension trait in midstate.rs, written in terms of the MidstateExt ones
+        return p.startswith("simplicity::merkle::midstate::") and "::MidstateExt::" not in p and "ByteArrayExt" not in p \
+            and "<impl " not in p
     return pred
 
 
